@@ -28,21 +28,34 @@ theorem heldM_fresh (p : Pool) (hm : MapOK p) (m : Nat) (hge : p.reqs.length ≤
   · simp [hh]
 
 theorem MapFrame.map {p q : Pool} (h : MapFrame p q) (hm : MapOK p) : MapOK q := by
-  refine ⟨?_, ?_, ?_⟩
+  refine ⟨?_, ?_, ?_, ?_⟩
   · intro t tk' ht hh
     obtain ⟨tk, a, b, c⟩ := h.tk t tk' ht
     rw [c]
     exact Nat.lt_of_lt_of_le (hm.ref t tk a (b ▸ hh)) h.rql
   · intro m r' hr
-    rcases h.rq m r' hr with ⟨r, a, b⟩ | ⟨hge, ⟨v, hv, hs⟩, _⟩
-    · obtain ⟨v, hv, hs⟩ := hm.le m r a
-      refine ⟨v, by rw [b.value]; exact hv, ?_⟩
-      rw [h.heldM_eq, b.grants, b.nc]
-      have := b.pend
-      omega
-    · refine ⟨v, hv, ?_⟩
-      rw [h.heldM_eq, heldM_fresh p hm m hge]
-      omega
+    rcases h.rq m r' hr with ⟨r, a, b⟩ | ⟨hge, ⟨v, hv, hs, hs2, _⟩, _⟩
+    · obtain ⟨v, hv, hs, hs2⟩ := hm.le m r a
+      refine ⟨v, by rw [b.value]; exact hv, ?_, ?_⟩
+      · rw [h.heldM_eq, b.grants, b.nc]
+        have := b.pend
+        omega
+      · intro hnd
+        rw [h.heldM_eq, b.grants, b.nc]
+        have := b.pge hnd
+        have := hs2 (b.live hnd)
+        omega
+    · refine ⟨v, hv, ?_, ?_⟩
+      · rw [h.heldM_eq, heldM_fresh p hm m hge]
+        omega
+      · intro hnd
+        rw [h.heldM_eq, heldM_fresh p hm m hge]
+        have := hs2 hnd
+        omega
+  · intro m r' hr
+    rcases h.rq m r' hr with ⟨r, a, b⟩ | ⟨_, ⟨_, _, _, _, hw⟩, _⟩
+    · exact b.wk (hm.wk m r a)
+    · exact hw
   · intro m r' hr
     rcases h.rq m r' hr with ⟨r, a, b⟩ | ⟨_, _, ha, _⟩
     · exact b.acq (hm.acq m r a)
@@ -134,35 +147,43 @@ structure MapMid (p : Pool) (m : Nat) (k : Int) : Prop where
   ref : ∀ (t : Nat) (tk : PTask), p.tasks[t]? = some tk → tk.mapHeld = true → tk.req < p.reqs.length
   le : ∀ (m' : Nat) (r : Req), p.reqs[m']? = some r →
         ∃ v, r.mapSem.value = .fin v ∧
-          ((v + heldM p.tasks m' + grantsL r.mapSem.waiters + r.pend : Nat) : Int) + (if m' = m then k else 0) ≤ r.nc
+          ((v + heldM p.tasks m' + grantsL r.mapSem.waiters + r.pend : Nat) : Int) + (if m' = m then k else 0) ≤ r.nc ∧
+          (r.outcome = none →
+            (r.nc : Int) ≤ ((v + heldM p.tasks m' + grantsL r.mapSem.waiters + r.pend : Nat) : Int) + (if m' = m then k else 0))
+  wk : ∀ (m' : Nat) (r : Req), p.reqs[m']? = some r → r.mapSem.WakeInv
   acq : ∀ (m' : Nat) (r : Req), p.reqs[m']? = some r → r.AcqOK
 
 theorem MapOK.mid {p : Pool} (h : MapOK p) (m : Nat) : MapMid p m 0 :=
-  ⟨h.ref, fun m' r hr => by obtain ⟨v, hv, hs⟩ := h.le m' r hr; exact ⟨v, hv, by split <;> omega⟩, h.acq⟩
+  ⟨h.ref, fun m' r hr => by
+    obtain ⟨v, hv, hs, hs2⟩ := h.le m' r hr
+    exact ⟨v, hv, by split <;> omega, fun hnd => by have := hs2 hnd; split <;> omega⟩, h.wk, h.acq⟩
 
-theorem MapMid.ok {p : Pool} {m : Nat} {k : Int} (h : MapMid p m k) (hk : 0 ≤ k := by omega) : MapOK p :=
-  ⟨h.ref, fun m' r hr => by obtain ⟨v, hv, hs⟩ := h.le m' r hr; exact ⟨v, hv, by split at hs <;> omega⟩, h.acq⟩
-
-theorem MapMid.mono {p : Pool} {m : Nat} {k k' : Int} (h : MapMid p m k) (hk : k' ≤ k) : MapMid p m k' :=
-  ⟨h.ref, fun m' r hr => by obtain ⟨v, hv, hs⟩ := h.le m' r hr; exact ⟨v, hv, by split at hs <;> split <;> omega⟩, h.acq⟩
+theorem MapMid.ok {p : Pool} {m : Nat} {k : Int} (h : MapMid p m k) (hk : k = 0 := by omega) : MapOK p :=
+  ⟨h.ref, fun m' r hr => by
+    obtain ⟨v, hv, hs, hs2⟩ := h.le m' r hr
+    exact ⟨v, hv, by split at hs <;> omega, fun hnd => by have := hs2 hnd; split at this <;> omega⟩, h.wk, h.acq⟩
 
 /-- a change that moves no map slot keeps the slots in flight in flight -/
 theorem MapFrame.mid {p q : Pool} (h : MapFrame p q) {m : Nat} {k : Int} (hm : MapMid p m k) (hlt : m < p.reqs.length) :
     MapMid q m k := by
-  refine ⟨?_, ?_, ?_⟩
+  refine ⟨?_, ?_, ?_, ?_⟩
   · intro t tk' ht hh
     obtain ⟨tk, a, b, c⟩ := h.tk t tk' ht
     rw [c]
     exact Nat.lt_of_lt_of_le (hm.ref t tk a (b ▸ hh)) h.rql
   · intro m' r' hr
-    rcases h.rq m' r' hr with ⟨r, a, b⟩ | ⟨hge, ⟨v, hv, hs⟩, _⟩
-    · obtain ⟨v, hv, hs⟩ := hm.le m' r a
-      refine ⟨v, by rw [b.value]; exact hv, ?_⟩
-      rw [h.heldM_eq, b.grants, b.nc]
-      have := b.pend
-      omega
-    · refine ⟨v, hv, ?_⟩
-      have h0 : heldM p.tasks m' = 0 := by
+    rcases h.rq m' r' hr with ⟨r, a, b⟩ | ⟨hge, ⟨v, hv, hs, hs2, _⟩, _⟩
+    · obtain ⟨v, hv, hs, hs2⟩ := hm.le m' r a
+      refine ⟨v, by rw [b.value]; exact hv, ?_, ?_⟩
+      · rw [h.heldM_eq, b.grants, b.nc]
+        have := b.pend
+        omega
+      · intro hnd
+        rw [h.heldM_eq, b.grants, b.nc]
+        have := b.pge hnd
+        have := hs2 (b.live hnd)
+        omega
+    · have h0 : heldM p.tasks m' = 0 := by
         unfold heldM
         rw [List.countP_eq_zero]
         intro tk hmem
@@ -172,10 +193,20 @@ theorem MapFrame.mid {p q : Pool} (h : MapFrame p q) {m : Nat} {k : Int} (hm : M
           have hne : p.tasks[i].req ≠ m' := by omega
           simp [hne]
         · simp [hh]
-      rw [h.heldM_eq, h0]
       have : m' ≠ m := by omega
-      simp only [this, if_false]
-      omega
+      refine ⟨v, hv, ?_, ?_⟩
+      · rw [h.heldM_eq, h0]
+        simp only [this, if_false]
+        omega
+      · intro hnd
+        have := hs2 hnd
+        rw [h.heldM_eq, h0]
+        simp only [*, if_false]
+        omega
+  · intro m' r' hr
+    rcases h.rq m' r' hr with ⟨r, a, b⟩ | ⟨_, ⟨_, _, _, _, hw⟩, _⟩
+    · exact b.wk (hm.wk m' r a)
+    · exact hw
   · intro m' r' hr
     rcases h.rq m' r' hr with ⟨r, a, b⟩ | ⟨_, _, ha, _⟩
     · exact b.acq (hm.acq m' r a)
@@ -185,28 +216,46 @@ theorem MapFrame.mid {p q : Pool} (h : MapFrame p q) {m : Nat} {k : Int} (hm : M
 theorem MapMid.modReq {p : Pool} {m : Nat} {k : Int} (h : MapMid p m k) (f : Req → Req) (k' : Int)
     (hf : ∀ r v, p.reqs[m]? = some r → r.mapSem.value = .fin v →
         ∃ v', (f r).mapSem.value = .fin v' ∧
-          ((v' + grantsL (f r).mapSem.waiters + (f r).pend : Nat) : Int) + k' ≤ (v + grantsL r.mapSem.waiters + r.pend : Nat) + k)
-    (hnc : ∀ r, (f r).nc = r.nc) (hacq : ∀ r, p.reqs[m]? = some r → r.AcqOK → (f r).AcqOK) :
+          ((v' + grantsL (f r).mapSem.waiters + (f r).pend : Nat) : Int) + k' ≤ (v + grantsL r.mapSem.waiters + r.pend : Nat) + k ∧
+          ((f r).outcome = none → r.outcome = none ∧
+            ((v + grantsL r.mapSem.waiters + r.pend : Nat) : Int) + k ≤ (v' + grantsL (f r).mapSem.waiters + (f r).pend : Nat) + k'))
+    (hnc : ∀ r, (f r).nc = r.nc) (hacq : ∀ r, p.reqs[m]? = some r → r.AcqOK → (f r).AcqOK)
+    (hwk : ∀ r, p.reqs[m]? = some r → r.mapSem.WakeInv → (f r).mapSem.WakeInv := by intro _ _ h; exact h) :
     MapMid (p.modReq m f) m k' := by
-  refine ⟨?_, ?_, ?_⟩
+  refine ⟨?_, ?_, ?_, ?_⟩
   · intro t tk ht hh
     simp only [Pool.modReq, List.length_modify]
     exact h.ref t tk ht hh
   · intro m' r' hr
     simp only [Pool.modReq] at hr
     obtain ⟨x, hx, rfl⟩ := getElem?_modify_some p.reqs m m' f r' hr
-    obtain ⟨v, hv, hs⟩ := h.le m' x hx
+    obtain ⟨v, hv, hs, hs2⟩ := h.le m' x hx
     split
     · rename_i e; subst e
-      obtain ⟨v', hv', hs'⟩ := hf x v hx hv
-      refine ⟨v', hv', ?_⟩
-      simp only [Pool.modReq_tasks, hnc, if_true] at hs ⊢
-      omega
+      obtain ⟨v', hv', hs', hs2'⟩ := hf x v hx hv
+      refine ⟨v', hv', ?_, ?_⟩
+      · simp only [Pool.modReq_tasks, hnc, if_true] at hs ⊢
+        omega
+      · intro hnd
+        obtain ⟨hl, hh⟩ := hs2' hnd
+        have := hs2 hl
+        simp only [Pool.modReq_tasks, hnc, if_true] at this ⊢
+        omega
     · rename_i ne
-      refine ⟨v, hv, ?_⟩
       have : m' ≠ m := fun e => ne e.symm
-      simp only [Pool.modReq_tasks, this, if_false] at hs ⊢
-      exact hs
+      refine ⟨v, hv, ?_, ?_⟩
+      · simp only [Pool.modReq_tasks, this, if_false] at hs ⊢
+        exact hs
+      · intro hnd
+        have h3 := hs2 hnd
+        simp only [Pool.modReq_tasks, this, if_false] at h3 ⊢
+        exact h3
+  · intro m' r' hr
+    simp only [Pool.modReq] at hr
+    obtain ⟨x, hx, rfl⟩ := getElem?_modify_some p.reqs m m' f r' hr
+    split
+    · rename_i e; subst e; exact hwk x hx (h.wk _ x hx)
+    · exact h.wk m' x hx
   · intro m' r' hr
     simp only [Pool.modReq] at hr
     obtain ⟨x, hx, rfl⟩ := getElem?_modify_some p.reqs m m' f r' hr
@@ -218,7 +267,7 @@ theorem MapMid.modReq {p : Pool} {m : Nat} {k : Int} (h : MapMid p m k) (f : Req
 theorem MapMid.dropTask {p : Pool} {m : Nat} {k : Int} (h : MapMid p m k) (t : Nat) (f : PTask → PTask) (x : PTask)
     (hx : p.tasks[t]? = some x) (h1 : x.mapHeld = true) (h2 : x.req = m) (hf : (f x).mapHeld = false)
     (hq : (f x).req = x.req) : MapMid (p.modTask t f) m (k + 1) := by
-  refine ⟨?_, ?_, h.acq⟩
+  refine ⟨?_, ?_, h.wk, h.acq⟩
   · intro i tk' ht hh
     simp only [Pool.modTask_tasks] at ht
     obtain ⟨y, hy, rfl⟩ := getElem?_modify_some p.tasks t i f tk' ht
@@ -226,24 +275,31 @@ theorem MapMid.dropTask {p : Pool} {m : Nat} {k : Int} (h : MapMid p m k) (t : N
     · subst e; rw [hx] at hy; cases hy; simp only [if_true] at hh; rw [hf] at hh; cases hh
     · simp only [e, if_false] at hh ⊢; exact h.ref i y hy hh
   · intro m' r hr
-    obtain ⟨v, hv, hs⟩ := h.le m' r hr
-    refine ⟨v, hv, ?_⟩
+    obtain ⟨v, hv, hs, hs2⟩ := h.le m' r hr
     simp only [Pool.modTask_tasks]
     by_cases e : m' = m
     · subst e
       have := heldM_modify_drop p.tasks t f x hx m' h1 h2 hf
-      simp only [if_true] at hs ⊢
-      omega
+      refine ⟨v, hv, ?_, fun hnd => ?_⟩
+      · simp only [if_true] at hs ⊢
+        omega
+      · have h3 := hs2 hnd
+        simp only [if_true] at h3 ⊢
+        omega
     · have := heldM_modify_other p.tasks t f x hx m' (by
         have hne : (x.req == m') = false := by rw [h2]; simpa using fun e' => e e'.symm
         rw [hq, hne]; simp)
-      simp only [e, if_false] at hs ⊢
-      omega
+      refine ⟨v, hv, ?_, fun hnd => ?_⟩
+      · simp only [e, if_false] at hs ⊢
+        omega
+      · have h3 := hs2 hnd
+        simp only [e, if_false] at h3 ⊢
+        omega
 
 /-- a task is appended; if it holds a map slot of `m`, one slot in flight is entered in the books -/
 theorem MapMid.addTask {p : Pool} {m : Nat} {k : Int} (h : MapMid p m (k + 1)) (x : PTask) (hq : x.req = m)
-    (hlt : m < p.reqs.length) (q : Pool) (ht : q.tasks = p.tasks ++ [x]) (hr : q.reqs = p.reqs) : MapMid q m k := by
-  refine ⟨?_, ?_, fun m' r h' => h.acq m' r (hr ▸ h')⟩
+    (hh : x.mapHeld = true) (hlt : m < p.reqs.length) (q : Pool) (ht : q.tasks = p.tasks ++ [x]) (hr : q.reqs = p.reqs) : MapMid q m k := by
+  refine ⟨?_, ?_, fun m' r h' => h.wk m' r (hr ▸ h'), fun m' r h' => h.acq m' r (hr ▸ h')⟩
   · intro i tk hi hh
     rw [ht, List.getElem?_append] at hi
     rw [hr]
@@ -255,21 +311,29 @@ theorem MapMid.addTask {p : Pool} {m : Nat} {k : Int} (h : MapMid p m (k + 1)) (
       · rw [List.getElem?_eq_none (by simpa using h1)] at hi; cases hi
   · intro m' r h'
     rw [hr] at h'
-    obtain ⟨v, hv, hs⟩ := h.le m' r h'
-    refine ⟨v, hv, ?_⟩
+    obtain ⟨v, hv, hs, hs2⟩ := h.le m' r h'
     rw [ht, heldM_append_one]
     by_cases e : m' = m
     · subst e
-      simp only [if_true] at hs ⊢
-      split <;> omega
+      refine ⟨v, hv, ?_, fun hnd => ?_⟩
+      · simp only [if_true] at hs ⊢
+        split <;> omega
+      · have h3 := hs2 hnd
+        have hxm : (x.mapHeld && x.req == m') = true := by simp [hh, hq]
+        simp only [if_true, hxm] at h3 ⊢
+        omega
     · have hne : (x.req == m') = false := by rw [hq]; simpa using fun e' => e e'.symm
-      simp only [e, if_false, hne, Bool.and_false] at hs ⊢
-      simpa using hs
+      refine ⟨v, hv, ?_, fun hnd => ?_⟩
+      · simp only [e, if_false, hne, Bool.and_false] at hs ⊢
+        simpa using hs
+      · have h3 := hs2 hnd
+        simp only [e, if_false, hne, Bool.and_false] at h3 ⊢
+        simpa using h3
 
 /-- a task that holds no map slot is appended -/
 theorem MapMid.addPlainTask {p : Pool} {m : Nat} {k : Int} (h : MapMid p m k) (x : PTask) (hx : x.mapHeld = false)
     (q : Pool) (ht : q.tasks = p.tasks ++ [x]) (hr : q.reqs = p.reqs) : MapMid q m k := by
-  refine ⟨?_, ?_, fun m' r h' => h.acq m' r (hr ▸ h')⟩
+  refine ⟨?_, ?_, fun m' r h' => h.wk m' r (hr ▸ h'), fun m' r h' => h.acq m' r (hr ▸ h')⟩
   · intro i tk hi hh
     rw [ht, List.getElem?_append] at hi
     rw [hr]
@@ -281,11 +345,10 @@ theorem MapMid.addPlainTask {p : Pool} {m : Nat} {k : Int} (h : MapMid p m k) (x
       · rw [List.getElem?_eq_none (by simpa using h1)] at hi; cases hi
   · intro m' r h'
     rw [hr] at h'
-    obtain ⟨v, hv, hs⟩ := h.le m' r h'
-    refine ⟨v, hv, ?_⟩
+    obtain ⟨v, hv, hs, hs2⟩ := h.le m' r h'
     rw [ht, heldM_append_one]
     simp only [hx, Bool.false_and, Bool.false_eq_true, if_false]
-    simpa using hs
+    exact ⟨v, hv, by simpa using hs, fun hnd => by simpa using hs2 hnd⟩
 
 end Taskpool
 
@@ -326,16 +389,21 @@ theorem mapMid_releaseMap {p : Pool} {m : Nat} {k : Int} (h : MapMid p m (k + 1)
     MapMid (p.releaseMap m) m k := by
   unfold releaseMap
   split
-  · exact h.mono (by omega)
+  · rename_i hn
+    rw [List.getElem?_eq_none_iff] at hn
+    omega
   · rename_i r hr
     have h1 : MapMid (p.modReq m fun x => { x with mapSem := r.mapSem.release.1 }) m k := by
       refine h.modReq _ k ?_ (fun _ => rfl) (fun _ _ ha => ha)
+        (fun _ _ _ v _ _ hg => Sem.release_wake r.mapSem hg)
       intro r0 v hr0 hv
       rw [hr] at hr0; cases hr0
       obtain ⟨v', a, b⟩ := Sem.release_effect r.mapSem v hv
-      refine ⟨v', a, ?_⟩
-      show v' + grantsL r.mapSem.release.1.waiters + r.pend + k ≤ _
-      omega
+      have e1 : grantsL ({ r with mapSem := r.mapSem.release.1 } : Req).mapSem.waiters = grantsL r.mapSem.release.1.waiters := rfl
+      have e2 : ({ r with mapSem := r.mapSem.release.1 } : Req).pend = r.pend := rfl
+      refine ⟨v', a, ?_, fun hnd => ⟨hnd, ?_⟩⟩
+      · rw [e1, e2]; omega
+      · rw [e1, e2]; omega
     exact (tame_schedOpt _ _).mapFrame.mid h1 (by simpa [modReq] using hlt)
 
 end Pool
@@ -347,6 +415,7 @@ theorem MapMid.of_eq {p q : Pool} {m : Nat} {k : Int} (h : MapMid p m k) (hr : q
     MapMid q m k :=
   ⟨fun t tk a b => by rw [hr]; rw [ht] at a; exact h.ref t tk a b,
    fun m' r a => by rw [hr] at a; rw [ht]; exact h.le m' r a,
+   fun m' r a => by rw [hr] at a; exact h.wk m' r a,
    fun m' r a => by rw [hr] at a; exact h.acq m' r a⟩
 
 end Taskpool
@@ -390,7 +459,7 @@ theorem MapFrame.accFrame {p q : Pool} (h : MapFrame p q) : AccFrame p q :=
   ⟨h.len, fun t tk' ht => by obtain ⟨tk, a, _, c⟩ := h.tk t tk' ht; exact ⟨tk, a, c⟩, h.rql,
    fun m r' hr => by
      rcases h.rq m r' hr with ⟨r, a, b⟩ | ⟨hge, _, _, hc, hf⟩
-     · exact Or.inl ⟨r, a, b.cnt, b.fr⟩
+     · exact Or.inl ⟨r, a, b.cnt, b.fr.elim Or.inl (fun e => Or.inr (Or.inl e))⟩
      · exact Or.inr ⟨hge, hc, hf⟩⟩
 
 theorem MapFrame.acc {p q : Pool} (h : MapFrame p q) (ha : AccOK p) : AccOK q := h.accFrame.acc ha
@@ -463,13 +532,13 @@ theorem MapMid.emitRef {p : Pool} {m : Nat} {k : Int} (h : MapMid p m k) (r : Re
 
 /-- request `m` is rewritten in fields the map books do not read -/
 theorem MapMid.modReq_same {p : Pool} {m : Nat} {k : Int} (h : MapMid p m k) (f : Req → Req)
-    (hs : ∀ r, (f r).mapSem = r.mapSem ∧ (f r).nc = r.nc ∧ (f r).pend ≤ r.pend ∧ (r.AcqOK → (f r).AcqOK)) :
+    (hs : ∀ r, (f r).mapSem = r.mapSem ∧ (f r).nc = r.nc ∧ (f r).pend = r.pend ∧ (r.AcqOK → (f r).AcqOK) ∧
+      ((f r).outcome = none → r.outcome = none)) :
     MapMid (p.modReq m f) m k := by
-  refine h.modReq f k ?_ (fun r => (hs r).2.1) (fun r _ ha => (hs r).2.2.2 ha)
+  refine h.modReq f k ?_ (fun r => (hs r).2.1) (fun r _ ha => (hs r).2.2.2.1 ha) (fun r _ hw => by rw [(hs r).1]; exact hw)
   intro r v _ hv
-  refine ⟨v, by rw [(hs r).1]; exact hv, ?_⟩
-  rw [(hs r).1]
-  have := (hs r).2.2.1
-  omega
+  refine ⟨v, by rw [(hs r).1]; exact hv, ?_, fun hnd => ⟨(hs r).2.2.2.2 hnd, ?_⟩⟩
+  · rw [(hs r).1, (hs r).2.2.1]; omega
+  · rw [(hs r).1, (hs r).2.2.1]; omega
 
 end Taskpool
